@@ -96,6 +96,10 @@ class VK:
         self.transitions = 0
         self.on_event = on_event
         self.max_running = 0
+        self.abort_on = None
+        for k, b in self.behaviours.items():
+            if b.get("sigint_while_running"):
+                self.abort_on = k
         if unrelated:
             p = VProc(999)
             p.unrelated = True
@@ -160,8 +164,9 @@ class VK:
             proc.out_fd = proc.err_fd = None
             out = proc.env.get("COND_OUT") if proc.env else None
             if out and os.WIFEXITED(proc.status) and os.WEXITSTATUS(proc.status) == 0 and os.path.isdir(out):
-                with open(os.path.join(out, "DONE"), "w") as f:
-                    f.write("%s\n%s\n%s\n" % (proc.key, out, proc.env.get("COND_DEPS", "")))
+                if not b.get("quiet"):
+                    with open(os.path.join(out, "DONE"), "w") as f:
+                        f.write("%s\n%s\n%s\n" % (proc.key, out, proc.env.get("COND_DEPS", "")))
                 for rel, content in (b.get("files") or {}).items():
                     path = os.path.join(out, rel)
                     os.makedirs(os.path.dirname(path), exist_ok=True)
@@ -202,6 +207,13 @@ class VK:
             can_go = not (blocked_if_empty and self.pipe_count == 0)
             opts, costs = [], []
             runners = sorted(self.running(), key=lambda p: p.pid)
+            if not can_go and not self.pending and self.abort_on is not None and any(p.key == self.abort_on for p in runners):
+                # SIGINT arrives while Conductor is blocked waiting for this task: the Python-level handler raises
+                # ConductorAbort out of the interrupted read()
+                self.abort_on = None
+                self.ev("sigint", kind)
+                from conductor.errors import ConductorAbort
+                raise ConductorAbort()
             if self.pending:
                 opts.append(("deliver",))
                 costs.append(0)
@@ -250,8 +262,9 @@ class VK:
         pre_listing = None
         if out and os.path.isdir(out):
             pre_listing = sorted(os.listdir(out))
-            with open(os.path.join(out, "PARTIAL"), "w") as f:
-                f.write(p.key + "\n")
+            if not p.behaviour.get("quiet"):
+                with open(os.path.join(out, "PARTIAL"), "w") as f:
+                    f.write(p.key + "\n")
         self.max_running = max(self.max_running, len([q for q in self.running() if not q.unrelated]))
         self.ev("spawn", pid, p.key, {
             "slot": p.env.get("COND_SLOT"), "out": out, "deps": p.env.get("COND_DEPS"),
